@@ -116,7 +116,7 @@ def tar_mutations(data, r, n_trunc, n_flip):
                 ext = data[nxt + 504]
                 nxt += 512
         off = nxt + (size + 511) // 512 * 512
-    for _ in range(n_flip):
+    for _ in range(n_flip if hdrs else 0):
         h = r.choice(hdrs)
         name, fo, fl = r.choice(HDR_FIELDS)
         pos = h + fo + r.choice([0, 0, fl - 1, r.randrange(fl)])
@@ -362,7 +362,7 @@ def text_work(a):
             for i in range(60):
                 target = r.choice(["pack.txt", "pack.txt", "sort.txt", "xattr.txt"])
                 b = bytearray(orig[target])
-                kind = r.choice(["flip", "inject", "truncate", "dupline", "nonl"])
+                kind = r.choice(["flip", "inject", "truncate", "dupline", "nonl", "lineend", "lineend"])
                 if not b:
                     continue
                 if kind == "flip":
@@ -373,6 +373,33 @@ def text_work(a):
                     b[p:p] = r.choice(TEXT_INJECT)
                 elif kind == "truncate":
                     del b[r.randrange(len(b)):]
+                elif kind == "lineend":
+                    # damage aimed at how ONE line ends: quotes that are never closed, a backslash as the last character (inside and
+                    # outside quotes), a bracket list without its end, a line cut right behind an escape character
+                    lines = bytes(b).split(b"\n")
+                    cand = [k for k, l in enumerate(lines) if l.strip()]
+                    if cand:
+                        k = r.choice(cand)
+                        l = lines[k]
+                        how = r.randrange(8)
+                        if how == 0:
+                            l = l + b"\\"
+                        elif how == 1:
+                            l = l.rstrip(b'"')                                   # closing quote gone
+                        elif how == 2:
+                            l = l.rstrip(b'"') + b"\\"                           # unclosed and ending in a backslash
+                        elif how == 3 and b"\\" in l:
+                            l = l[:l.index(b"\\") + 1]                           # cut right behind the first backslash
+                        elif how == 4 and b'"' in l:
+                            l = l[:l.index(b'"') + 1 + r.randrange(3)]          # cut just inside the quotes
+                        elif how == 5:
+                            l = l + b' "abc\\'
+                        elif how == 6 and b"]" in l:
+                            l = l.replace(b"]", b"", 1)
+                        else:
+                            l = l[:r.randrange(len(l) + 1)] + b"\\"
+                        lines[k] = l
+                        b = bytearray(b"\n".join(lines))
                 elif kind == "dupline":
                     lines = bytes(b).split(b"\n")
                     lines.insert(r.randrange(len(lines)), r.choice(lines))
